@@ -184,3 +184,16 @@ func Lex(src string) ([]Tok, []LexError) {
 	toks = append(toks, Tok{Kind: "EOF", Lexeme: "", Line: line, Start: n, End: n})
 	return toks, errs
 }
+
+// ToASCII rewrites the Bangla digits of a numeric lexeme as ASCII digits.
+func ToASCII(lex string) string {
+	var sb strings.Builder
+	for _, r := range lex {
+		if r >= 0x09E6 && r <= 0x09EF {
+			sb.WriteByte(byte('0' + r - 0x09E6))
+		} else {
+			sb.WriteRune(r)
+		}
+	}
+	return sb.String()
+}
